@@ -342,7 +342,7 @@ impl Prop for C17 {
                 1 => b"NAME P\nROWS\n N  COST\n L  LIM\nCOLUMNS\n    Q  COST  1  LI",
                 _ => b"NAME P\nROWS\n N  COST\n Z  LIM\nCOLUMNS\n",
             };
-            if let Err(p) = x.sut(|| ommx::mps::load_raw_reader(other)) {
+            if let Err(p) = x.quietly(|x| x.sut(|| ommx::mps::load_raw_reader(other))) {
                 x.count("probe.earlier_call_panicked");
                 let _ = p;
             }
